@@ -491,3 +491,148 @@ pub fn cmd_sink_crash(args: &[String]) -> i32 {
     println!("{}", json!({"events": nev}));
     0
 }
+
+// ---------------------------------------------------------------- C18
+
+/// A marker visible in the strace log: openat of a path that does not exist.
+fn strace_mark(tag: &str) {
+    let _ = std::fs::File::open(format!("/nonexistent-vh-mark/{tag}"));
+}
+fn count_dir(p: &str) -> usize {
+    std::fs::read_dir(p).map(|d| d.count()).unwrap_or(0)
+}
+fn count_maps() -> usize {
+    std::fs::read_to_string("/proc/self/maps").map(|s| s.lines().filter(|l| l.contains("(deleted)")).count()).unwrap_or(0)
+}
+
+enum Slot {
+    U8(std::sync::Arc<rustradio::circular_buffer::Buffer<u8>>),
+    U32(std::sync::Arc<rustradio::circular_buffer::Buffer<u32>>),
+}
+
+/// Aliasing probe through the public window API, on an empty ring: the write
+/// window starting at position i + 1 has its last element at absolute index
+/// i + cap of the doubled mapping. A value written there must be read back at
+/// absolute index i (first element of a read window starting at i).
+/// Works for i in 0 .. cap - 2 (the very last byte of the second mapping is
+/// never part of a window).
+fn alias_probe(b: &std::sync::Arc<rustradio::circular_buffer::Buffer<u8>>, cap: usize, i: usize, val: u8) -> (u8, bool) {
+    let p = (i + 1) % cap;
+    let cur = b.verif_state().0;
+    let d = (p + cap - cur) % cap;
+    if d > 0 {
+        // move the empty ring to position p without touching memory
+        let w = b.clone().write_buf().unwrap();
+        w.produce(d, &[]);
+        let (r, _) = b.clone().read_buf().unwrap();
+        r.consume(d);
+    }
+    let mut w = b.clone().write_buf().unwrap();
+    let full = w.len() == cap;
+    w.slice()[cap - 1] = val; // absolute index p + cap - 1 = i + cap
+    w.produce(cap, &[]);
+    let (r, _) = b.clone().read_buf().unwrap();
+    r.consume(cap - 1); // read position is now i, one sample left
+    let (r, _) = b.clone().read_buf().unwrap();
+    let got = r.slice()[0]; // absolute index i
+    r.consume(1);
+    (got, full)
+}
+
+/// mmap-run --script FILE --out FILE. Script: {"ops": [[thread, op, ...]], "rlimit_as": bytes|0}
+/// ops: ["new", slot, size, elem] ["drop", slot] ["mark", n] ["alias", slot, i]
+pub fn cmd_mmap_run(args: &[String]) -> i32 {
+    quiet_panics();
+    let script: Value = serde_json::from_str(&std::fs::read_to_string(arg_val(args, "--script").expect("--script")).unwrap()).unwrap();
+    let mut o = std::io::BufWriter::new(std::fs::File::create(arg_val(args, "--out").expect("--out")).expect("create"));
+    let nthreads = script["threads"].as_u64().unwrap_or(1) as usize;
+    // worker threads execute ops one at a time (serialised), so syscalls of different ops do not interleave
+    let slots: std::sync::Arc<std::sync::Mutex<std::collections::HashMap<u64, Slot>>> = Default::default();
+    let (txs, handles): (Vec<_>, Vec<_>) = (0..nthreads)
+        .map(|_| {
+            let (tx, rx) = std::sync::mpsc::channel::<(Value, std::sync::mpsc::Sender<Value>)>();
+            let slots = slots.clone();
+            let h = std::thread::spawn(move || {
+                for (op, reply) in rx {
+                    let kind = op[1].as_str().unwrap();
+                    let r = match kind {
+                        "new" => {
+                            let slot = op[2].as_u64().unwrap();
+                            let size = op[3].as_u64().unwrap() as usize;
+                            let elem = op[4].as_u64().unwrap();
+                            strace_mark(&format!("new-begin-{slot}"));
+                            let res = if elem == 4 {
+                                catch(|| rustradio::circular_buffer::Buffer::<u32>::new(size)).map(|r| r.map(|b| Slot::U32(std::sync::Arc::new(b))))
+                            } else {
+                                catch(|| rustradio::circular_buffer::Buffer::<u8>::new(size)).map(|r| r.map(|b| Slot::U8(std::sync::Arc::new(b))))
+                            };
+                            let out = match res {
+                                Ok(Ok(s)) => {
+                                    slots.lock().unwrap().insert(slot, s);
+                                    json!({"ev": "new", "slot": slot, "size": size, "elem": elem, "result": "ok"})
+                                }
+                                Ok(Err(e)) => json!({"ev": "new", "slot": slot, "size": size, "elem": elem, "result": "err", "msg": format!("{e}")}),
+                                Err(p) => json!({"ev": "new", "slot": slot, "size": size, "elem": elem, "result": "panic", "msg": p}),
+                            };
+                            strace_mark(&format!("new-end-{slot}"));
+                            out
+                        }
+                        "drop" => {
+                            let slot = op[2].as_u64().unwrap();
+                            strace_mark(&format!("drop-begin-{slot}"));
+                            let had = slots.lock().unwrap().remove(&slot).is_some();
+                            strace_mark(&format!("drop-end-{slot}"));
+                            json!({"ev": "drop", "slot": slot, "had": had})
+                        }
+                        "alias" => {
+                            let slot = op[2].as_u64().unwrap();
+                            let i = op[3].as_u64().unwrap() as usize;
+                            let g = slots.lock().unwrap();
+                            match g.get(&slot) {
+                                Some(Slot::U8(b)) => {
+                                    let cap = b.total_size();
+                                    let val = (i as u8).wrapping_mul(37).wrapping_add(11);
+                                    match catch(|| alias_probe(b, cap, i % cap, val)) {
+                                        Ok((got, full)) => json!({"ev": "alias", "slot": slot, "i": i % cap, "wrote": val, "read": got, "full_window": full}),
+                                        Err(p) => json!({"ev": "alias", "slot": slot, "i": i % cap, "wrote": val, "read": -1, "panic": p}),
+                                    }
+                                }
+                                _ => json!({"ev": "alias", "slot": slot, "skipped": true}),
+                            }
+                        }
+                        _ => {
+                            let n = op[2].as_u64().unwrap();
+                            strace_mark(&format!("quiet-{n}"));
+                            json!({"ev": "mark", "n": n, "fds": count_dir("/proc/self/fd"), "maps": count_maps()})
+                        }
+                    };
+                    let _ = reply.send(r);
+                }
+            });
+            (tx, h)
+        })
+        .unzip();
+    if let Some(lim) = script["rlimit_as"].as_u64().filter(|l| *l > 0) {
+        // grow-only address space limit relative to current usage
+        let cur = std::fs::read_to_string("/proc/self/statm").ok().and_then(|s| s.split(' ').next().map(|x| x.parse::<u64>().unwrap_or(0))).unwrap_or(0) * 4096;
+        let rl = libc::rlimit { rlim_cur: cur + lim, rlim_max: libc::RLIM_INFINITY };
+        // SAFETY: plain setrlimit call.
+        unsafe { libc::setrlimit(libc::RLIMIT_AS, &rl) };
+    }
+    let mut n = 0;
+    for op in script["ops"].as_array().unwrap() {
+        let t = op[0].as_u64().unwrap() as usize % nthreads;
+        let (rtx, rrx) = std::sync::mpsc::channel();
+        txs[t].send((op.clone(), rtx)).unwrap();
+        let r = rrx.recv().unwrap();
+        writeln!(o, "{r}").unwrap();
+        n += 1;
+    }
+    drop(txs);
+    for h in handles {
+        let _ = h.join();
+    }
+    o.flush().unwrap();
+    println!("{}", json!({"events": n}));
+    0
+}
